@@ -1545,13 +1545,18 @@ impl Block {
                 )
             {
                 if let Some(pruned_block) = blockchain.blocks.get(&pruned_block_hash) {
-                    if let Ok(mut atr_block) = storage
+                    // (a file that decodes but cannot be generated is no more usable than one that does not
+                    // decode: both end in the error branch below)
+                    let loaded_atr_block = match storage
                         .load_block_from_disk(
                             storage.generate_block_filepath(pruned_block).as_str(),
                         )
                         .await
                     {
-                        atr_block.generate().unwrap();
+                        Ok(mut atr_block) => atr_block.generate().map(|_| atr_block),
+                        Err(error) => Err(error),
+                    };
+                    if let Ok(atr_block) = loaded_atr_block {
                         assert_ne!(
                             atr_block.block_type,
                             BlockType::Pruned,
